@@ -26,6 +26,7 @@ import (
 	"encoding/json"
 	"fmt"
 	"math"
+	"path"
 	"sort"
 	"strconv"
 	"strings"
@@ -42,7 +43,10 @@ import (
 	"pgregory.net/rapid"
 )
 
-const findingUnlocked = "C15/update-gc-safepoint-unlocked"
+const (
+	findingUnlocked  = "C15/update-gc-safepoint-unlocked"
+	findingServiceID = "C15/service-id-path-join"
+)
 
 func TestMain(m *testing.M)   { vkit.Main(m, "C15") }
 func TestProp(t *testing.T)   { defer livesrv.Shutdown(); vkit.RunAll(t) }
@@ -426,12 +430,53 @@ func TestFinding_update_gc_safepoint_unlocked(t *testing.T) {
 		o.recs[0].resp, o.recs[1].resp, final, o.trace))
 }
 
+// TestFinding_service_id_path_join: the service id is joined into the storage key with path.Join, so
+// the id ".." addresses the cluster GC safe point itself: UpdateServiceGCSafePoint("..", ttl<=0) deletes
+// it (it reads back as 0 after 100 was acknowledged), ttl>0 overwrites it with JSON that
+// LoadGCSafePoint cannot parse.
+func TestFinding_service_id_path_join(t *testing.T) {
+	defer livesrv.Shutdown()
+	fx, err := livesrv.Get()
+	if err != nil {
+		t.Logf("fixture did not start: %v", err)
+		return
+	}
+	fx.SwapStorage()
+	defer fx.RestoreStorage()
+	ctx := context.Background()
+	u, err := fx.Svr.UpdateGCSafePoint(ctx, &pdpb.UpdateGCSafePointRequest{Header: fx.Header(), SafePoint: 100})
+	if err != nil || u.GetHeader().GetError() != nil || u.GetNewSafePoint() != 100 {
+		t.Logf("probe undecided: %v %v", u, err)
+		return
+	}
+	_, e1 := fx.Svr.UpdateServiceGCSafePoint(ctx, &pdpb.UpdateServiceGCSafePointRequest{Header: fx.Header(), ServiceId: []byte(".."), TTL: -1, SafePoint: 1})
+	g1, ge1 := fx.Svr.GetGCSafePoint(ctx, &pdpb.GetGCSafePointRequest{Header: fx.Header()})
+	_, e2 := fx.Svr.UpdateServiceGCSafePoint(ctx, &pdpb.UpdateServiceGCSafePointRequest{Header: fx.Header(), ServiceId: []byte(".."), TTL: 1000000, SafePoint: 1})
+	g2, ge2 := fx.Svr.GetGCSafePoint(ctx, &pdpb.GetGCSafePointRequest{Header: fx.Header()})
+	rep := (ge1 == nil && g1.GetSafePoint() < 100) || ge1 != nil || ge2 != nil || g2.GetSafePoint() < 100
+	vkit.Finding(t, findingServiceID, rep, fmt.Sprintf("UpdateGCSafePoint(100) acknowledged 100; UpdateServiceGCSafePoint(id \"..\", ttl -1): err=%v, then GetGCSafePoint = %d (err=%v); UpdateServiceGCSafePoint(id \"..\", ttl 1e6): err=%v, then GetGCSafePoint = %d (err=%v)",
+		e1, g1.GetSafePoint(), ge1, e2, g2.GetSafePoint(), ge2))
+}
+
 // ------------------------------------------------------------ (b) service safe points
 
-var svcIDs = []string{gcWorker, "ticdc", "br", "br-1", "svc_a", ""}
+// indices 0-5: what TiDB/BR/TiCDC send (plus the empty id); 6: a benign id with a slash; 7-13: ids that path
+// cleaning alters (the id is an arbitrary byte string chosen by the gRPC client / the REST path)
+var svcIDs = []string{gcWorker, "ticdc", "br", "br-1", "svc_a", "", "a/b",
+	"..", "../safe_point", ".", "a/../br", "/", "br/", "ticdc/"}
+
+// hostileID: the id does not survive being joined as a path element, so it addresses another storage key
+// than "gc/safe_point/service/<id>" (the empty id is handled separately: the storage refuses to save it).
+func hostileID(id string) bool {
+	return id != "" && path.Join("gc/safe_point/service", id) != prefixService+id
+}
 
 // TTL specs, resolved by the runner ("now" is the server's TSO clock)
-var ttlSpecs = []string{"-1", "0", "1", "1000000", "max-now", "max", "min", "max-now-1e6", "3600"}
+var ttlSpecs = []string{"-1", "0", "1", "1000000", "max-now", "max", "min", "max-now-1e6", "3600",
+	// the neighbourhood of the overflow boundary of now+TTL (indices 9-14)
+	"max-1", "max-2", "max-now+1", "max-now+1000", "max-now-1", "half"}
+
+var boundaryTTLs = []int{4, 5, 9, 10, 11, 12, 13, 14}
 
 type Seed struct {
 	ID  int    `json:"id"` // index into svcIDs (never the empty id)
@@ -449,6 +494,7 @@ type SOp struct {
 }
 
 type SvcCase struct {
+	GC    uint64 `json:"gc,omitempty"` // cluster GC safe point stored before the history (service ops must not touch it)
 	Seeds []Seed `json:"seeds"`
 	Ops   []SOp  `json:"ops"`
 }
@@ -461,6 +507,9 @@ func genSvc(t *rapid.T) SvcCase {
 		c.Seeds = append(c.Seeds, Seed{ID: ids[i], SP: uint64(rapid.IntRange(0, 30).Draw(t, "seedSP")),
 			Exp: rapid.SampledFrom([]string{"expired", "epoch", "live", "live", "inf"}).Draw(t, "seedExp")})
 	}
+	if rapid.IntRange(0, 2).Draw(t, "hasGC") != 0 {
+		c.GC = uint64(rapid.IntRange(1, 40).Draw(t, "gc"))
+	}
 	n := rapid.IntRange(3, 12).Draw(t, "ops")
 	for i := 0; i < n; i++ {
 		var op SOp
@@ -468,9 +517,9 @@ func genSvc(t *rapid.T) SvcCase {
 		if rapid.IntRange(0, 11).Draw(t, "kind") == 7 {
 			op.Kind = "apidelete"
 		}
-		op.ID = rapid.SampledFrom([]int{0, 0, 0, 1, 1, 1, 2, 2, 3, 3, 4, 4, 5}).Draw(t, "id")
+		op.ID = rapid.SampledFrom([]int{0, 0, 0, 1, 1, 1, 2, 2, 3, 3, 4, 4, 5, 6, 7, 7, 8, 9, 10, 11, 12, 13}).Draw(t, "id")
 		if op.Kind == "update" {
-			op.TTL = rapid.SampledFrom([]int{0, 1, 2, 3, 3, 3, 4, 5, 5, 6, 7, 8, 8}).Draw(t, "ttl")
+			op.TTL = rapid.SampledFrom([]int{0, 1, 2, 3, 3, 3, 4, 5, 5, 6, 7, 8, 8, 9, 10, 11, 12, 13, 14}).Draw(t, "ttl")
 			if rapid.IntRange(0, 2).Draw(t, "rel") != 0 {
 				op.Rel = true
 				op.D = rapid.IntRange(-3, 6).Draw(t, "d")
@@ -483,6 +532,15 @@ func genSvc(t *rapid.T) SvcCase {
 			}
 		}
 		c.Ops = append(c.Ops, op)
+		// frequent pattern: a service registers with a TTL next to the overflow boundary of now+TTL at (or just
+		// above) the current minimum, then gc_worker / another service advances: the first registration must still
+		// hold the minimum down
+		if rapid.IntRange(0, 3).Draw(t, "boundaryPair") == 0 {
+			c.Ops = append(c.Ops, SOp{Kind: "update", ID: rapid.SampledFrom([]int{1, 2, 3, 4}).Draw(t, "pairID"),
+				TTL: rapid.SampledFrom(boundaryTTLs).Draw(t, "pairTTL"), Rel: true, D: rapid.IntRange(0, 2).Draw(t, "pairD")})
+			c.Ops = append(c.Ops, SOp{Kind: "update", ID: rapid.SampledFrom([]int{0, 0, 1, 2}).Draw(t, "advID"),
+				TTL: 5, Rel: true, D: rapid.IntRange(3, 6).Draw(t, "advD")})
+		}
 	}
 	return c
 }
@@ -605,10 +663,35 @@ func runSvc(c SvcCase) (vkit.Info, error) {
 	info.ClassIf(len(c.Seeds) > 0 && !seededGW, "seed-without-gc_worker")
 	accepted, below, removed, pruned := 0, 0, 0, 0
 	ctx := context.Background()
+	if c.GC > 0 {
+		if err := base.Save(keySafePoint, strconv.FormatUint(c.GC, 16)); err != nil {
+			return info, err
+		}
+	}
+	// service operations never touch the cluster GC safe point: it stays readable and never decreases
+	checkGC := func(where string) error {
+		v, err := loadStored(base)
+		if err != nil {
+			raw, _ := base.Load(keySafePoint)
+			return vkit.Errf("%s: the cluster GC safe point (stored %d before the history) is no longer readable: %v (stored value %.80q)", where, c.GC, err, raw)
+		}
+		if v != c.GC {
+			return vkit.Errf("%s: the cluster GC safe point changed from %d to %d through a service safe point operation", where, c.GC, v)
+		}
+		return nil
+	}
 	for step, op := range c.Ops {
 		id := svcIDs[op.ID]
 		where := func() string { return fmt.Sprintf("step %d %+v (id %q)", step, op, id) }
 		pre := copyState(model)
+		hostile := hostileID(id)
+		if hostile && vkit.Known(findingServiceID) {
+			// known class: ids that path cleaning alters address other keys (even the cluster GC safe point)
+			info.Exclude(findingServiceID)
+			info.Class("known:hostile-id-skipped")
+			continue
+		}
+		info.ClassIf(hostile, "hostile-id")
 		if op.Kind == "apidelete" {
 			// DELETE /pd/api/v1/gc/safepoint/{service_id} is storage.RemoveServiceGCSafePoint
 			err := fx.Svr.GetStorage().RemoveServiceGCSafePoint(id)
@@ -617,7 +700,7 @@ func runSvc(c SvcCase) (vkit.Info, error) {
 				return info, vkit.Errf("%s: %v", where(), rerr)
 			}
 			want := copyState(pre)
-			if id != gcWorker {
+			if id != gcWorker && !(hostile && err != nil) { // an id that does not survive path cleaning may be refused
 				delete(want, id)
 				if err != nil {
 					return inconclusive("request-error")
@@ -625,6 +708,9 @@ func runSvc(c SvcCase) (vkit.Info, error) {
 				if _, had := pre[id]; had {
 					removed++
 				}
+			}
+			if gerr := checkGC(where()); gerr != nil {
+				return info, gerr
 			}
 			if d := diffState(want, post, nil); d != "" {
 				return info, vkit.Errf("%s: after the HTTP delete (err=%v) the stored entries are %s, expected %s: %s", where(), err, fmtState(post), fmtState(want), d)
@@ -639,7 +725,7 @@ func runSvc(c SvcCase) (vkit.Info, error) {
 		}
 		// resolve the relative arguments
 		var ttl int64
-		infinite := false
+		infinite, justBelow := false, false
 		switch ttlSpecs[op.TTL] {
 		case "max-now":
 			ttl, infinite = math.MaxInt64-nb.Unix(), true
@@ -649,6 +735,20 @@ func runSvc(c SvcCase) (vkit.Info, error) {
 			ttl = math.MinInt64
 		case "max-now-1e6":
 			ttl = math.MaxInt64 - nb.Unix() - 1000000
+		// the neighbourhood of the overflow boundary: the handler's now is >= nb, so every TTL >= MaxInt64-nb is
+		// unlimited for certain; MaxInt64-nb-1 is finite exactly when the handler's clock shows the same second
+		case "max-1":
+			ttl, infinite = math.MaxInt64-1, true
+		case "max-2":
+			ttl, infinite = math.MaxInt64-2, true
+		case "max-now+1":
+			ttl, infinite = math.MaxInt64-nb.Unix()+1, true
+		case "max-now+1000":
+			ttl, infinite = math.MaxInt64-nb.Unix()+1000, true
+		case "max-now-1":
+			ttl, justBelow = math.MaxInt64-nb.Unix()-1, true
+		case "half":
+			ttl = math.MaxInt64 / 2
 		default:
 			ttl, _ = strconv.ParseInt(ttlSpecs[op.TTL], 10, 64)
 		}
@@ -685,6 +785,10 @@ func runSvc(c SvcCase) (vkit.Info, error) {
 			return fmt.Sprintf("%s ttl=%d sp=%d: before %s, after %s, response {id %q min %d ttl %d} err=%v", where(), ttl, sp,
 				fmtState(pre), fmtState(post), resp.GetServiceId(), resp.GetMinSafePoint(), resp.GetTTL(), err)
 		}
+		if gerr := checkGC(desc()); gerr != nil {
+			return info, gerr
+		}
+		info.ClassIf(op.TTL >= 9 || op.TTL == 4, "ttl-near-overflow-boundary")
 		// gc_worker exists with unlimited lifetime after every successful op
 		if gw, ok := post[gcWorker]; err == nil && (!ok || gw.Exp != math.MaxInt64) {
 			return info, vkit.Errf("gc_worker entry missing or with finite lifetime: %s", desc())
@@ -706,6 +810,10 @@ func runSvc(c SvcCase) (vkit.Info, error) {
 			} else if e.Exp < na.Unix() {
 				inDoubt = true
 			}
+		}
+		if justBelow && na.Unix() != nb.Unix() {
+			// TTL = MaxInt64-now-1 and the clock moved to the next second: finite or unlimited, both possible
+			inDoubt = true
 		}
 		if inDoubt {
 			// an entry expires exactly while this request runs: follow the real state, keep the weak checks
@@ -743,7 +851,7 @@ func runSvc(c SvcCase) (vkit.Info, error) {
 			mn, _ = minOf(want)
 		}
 		if err != nil {
-			if !refusable {
+			if !refusable && !hostile { // an id that does not survive path cleaning may be refused
 				return inconclusive("request-error")
 			}
 			// refused: nothing but the pruning of expired entries / the gc_worker repair may have happened
@@ -753,7 +861,14 @@ func runSvc(c SvcCase) (vkit.Info, error) {
 				}
 			}
 			model = post
-			info.Class("refused:" + map[bool]string{true: "gc_worker", false: "empty-id"}[id == gcWorker])
+			switch {
+			case hostile:
+				info.Class("refused:hostile-id")
+			case id == gcWorker:
+				info.Class("refused:gc_worker")
+			default:
+				info.Class("refused:empty-id")
+			}
 			continue
 		}
 		if d := diffState(want, post, bracket); d != "" {
